@@ -82,7 +82,7 @@ def layouts(tier, seed, salt):
     add(8, 8, 0, [{"w": 24, "acc": "rw", "addr": 201}, {"w": 8, "acc": "rw", "addr": 255}, {"w": 16, "acc": "rw", "addr": 127}], ovs=[None, 0])
     if max_chunks >= 6:
         add(8, 6, 0, [{"w": 48, "acc": "rw", "addr": 5}, {"w": 40, "acc": "rw", "addr": 13}, {"w": 8, "acc": "rw", "addr": 4}])
-    want = 120 if tier == "quick" else 1000
+    want = 90 if tier == "quick" else 1000
     widths = lambda dw: [0, 1, dw - 1, dw, dw + 1, 2 * dw, 2 * dw + 3, 3 * dw, 4 * dw] + \
         ([5 * dw + 1, 6 * dw] if tier == "thorough" else [])
     tries = 0
